@@ -4,6 +4,7 @@ import Gaftools.Drv.Gfa
 import Gaftools.Drv.Realign
 import Gaftools.Drv.Conv
 import Gaftools.Drv.Order
+import Gaftools.Drv.Bgzf
 /-! The correspondence driver: one JSON object per line in, one per line out. -/
 open Lean Gaftools.Drv
 
@@ -28,6 +29,7 @@ def dispatch (op : String) (j : Json) : Except String Json :=
   | "view.select" => View.opSelect j
   | "order.run" => Order.opRun j
   | "order.command" => Order.opCommand j
+  | "bgzf.resolve" => Bgzf.opResolve j
   | _ => throw s!"unknown op {op}"
 
 partial def loop (h : IO.FS.Stream) (out : IO.FS.Stream) : IO Unit := do
